@@ -7,15 +7,18 @@ package bgp
 // errors, families
 //@ props C05 C06
 
+//@ spec isMsgErr(e error) bool = typeOf(e) == (*MessageError) && e.(*MessageError) != nil
+//@ spec freshMsgErr(e error) bool = typeOf(e) == (*MessageError) && e.(*MessageError) != nil && fresh(e.(*MessageError))
+
 //@ func NewMessageError
 //@   modifies nothing
-//@   ensures typeOf(result) == (*MessageError) && fresh(result.(*MessageError))
+//@   ensures freshMsgErr(result)
 //@   ensures result.(*MessageError).TypeCode == typeCode && result.(*MessageError).SubTypeCode == subTypeCode
 //@   ensures result.(*MessageError).ErrorHandling == ERROR_HANDLING_SESSION_RESET
 
 //@ func NewMessageErrorWithErrorHandling
 //@   modifies nothing
-//@   ensures typeOf(result) == (*MessageError) && fresh(result.(*MessageError))
+//@   ensures freshMsgErr(result)
 //@   ensures result.(*MessageError).TypeCode == typeCode && result.(*MessageError).SubTypeCode == subTypeCode
 //@   ensures result.(*MessageError).ErrorHandling == errorHandling
 
@@ -46,7 +49,7 @@ package bgp
 //@   ensures err == nil ==> len(data) >= 2 + int(c.CapLen) && c.CapCode == data[0]
 //@   ensures err == nil && c.CapLen > 0 ==> len(c.CapValue) == int(c.CapLen)
 //@   ensures err == nil && c.CapLen == 0 ==> c.CapValue === old(c.CapValue)
-//@   ensures err != nil ==> typeOf(err) == (*MessageError)
+//@   ensures err != nil ==> freshMsgErr(err)
 
 //@ func (*CapMultiProtocol).DecodeFromBytes
 //@   requires len(c.DefaultParameterCapability.CapValue) == 0
@@ -111,3 +114,106 @@ package bgp
 //@   modifies msg.*
 //@ func (*BGPRouteRefresh).DecodeFromBytes
 //@   modifies msg.*
+
+// ---------------------------------------------------------------------------------------------
+// path attributes
+//@ props C05 C04
+
+//@ func validatePathAttributeFlags
+//@   modifies nothing
+//@ func getErrorHandlingFromPathAttribute
+//@   modifies nothing
+
+//@ func (*PathAttribute).Len
+//@   inline
+//@ func (*PathAttribute).GetType
+//@   inline
+//@ func (*PathAttribute).GetFlags
+//@   inline
+
+// from C04/C05: value is a view of exactly Length octets inside data; Len() is header + Length
+//@ func (*PathAttribute).DecodeFromBytes
+//@   modifies p.*
+//@   ensures err == nil ==> len(value) == int(p.Length) && p.Len() <= len(data)
+//@   ensures err == nil ==> p.Flags == data[0] && p.Type == data[1]
+//@   ensures err != nil ==> freshMsgErr(err)
+
+//@ func (*PathAttribute).Serialize
+//@   modifies nothing
+//@   ensures result1 == nil && fresh(result0)
+//@   ensures len(result0) == (len(value) % 65536 > 255 || p.Flags & 16 != 0 ? 4 : 3) + len(value)
+
+//@ func (*PathAttributeOrigin).DecodeFromBytes
+//@   modifies p.*
+//@   ensures err != nil ==> freshMsgErr(err)
+//@ func (*PathAttributeNextHop).DecodeFromBytes
+//@   modifies p.*
+//@   ensures err != nil ==> freshMsgErr(err)
+//@ func (*PathAttributeMultiExitDisc).DecodeFromBytes
+//@   modifies p.*
+//@   ensures err != nil ==> freshMsgErr(err)
+//@ func (*PathAttributeLocalPref).DecodeFromBytes
+//@   modifies p.*
+//@   ensures err != nil ==> freshMsgErr(err)
+//@ func (*PathAttributeAtomicAggregate).DecodeFromBytes
+//@   modifies p.*
+//@   ensures err != nil ==> freshMsgErr(err)
+//@ func (*PathAttributeAggregator).DecodeFromBytes
+//@   modifies p.*
+//@   ensures err != nil ==> freshMsgErr(err)
+//@ func (*PathAttributeOriginatorId).DecodeFromBytes
+//@   modifies p.*
+//@   ensures err != nil ==> freshMsgErr(err)
+//@ func (*PathAttributeAs4Aggregator).DecodeFromBytes
+//@   modifies p.*
+//@   ensures err != nil ==> freshMsgErr(err)
+//@ func (*PathAttributeUnknown).DecodeFromBytes
+//@   modifies p.*
+//@   ensures err != nil ==> freshMsgErr(err)
+//@ func (*PathAttributeCommunities).DecodeFromBytes
+//@   modifies p.*
+//@   loop 0 decreases len(value)
+//@   ensures err != nil ==> freshMsgErr(err)
+//@ func (*PathAttributeClusterList).DecodeFromBytes
+//@   modifies p.*
+//@   loop 0 decreases len(value)
+//@   ensures err != nil ==> freshMsgErr(err)
+//@ func NewLargeCommunity
+//@   modifies nothing
+//@   ensures result != nil && fresh(result)
+//@ func (*PathAttributeLargeCommunities).DecodeFromBytes
+//@   modifies p.*
+//@   loop 0 decreases len(value)
+//@   ensures err != nil ==> freshMsgErr(err)
+
+//@ func (*AsPathParam).DecodeFromBytes
+//@   modifies a.*
+//@   loop 0 invariant len(data) >= 2*(int(a.Num) - int(__iter)) && __iter < a.Num
+//@   loop 0 invariant len(a.AS) == old(len(a.AS)) + int(__iter)
+//@   ensures err == nil ==> len(a.AS) == old(len(a.AS)) + int(a.Num) && 2 + 2*int(a.Num) <= len(data)
+//@   ensures err != nil ==> freshMsgErr(err)
+
+//@ func (*AsPathParam).Len
+//@   inline
+//@ func (*As4PathParam).Len
+//@   inline
+//@ func (*As4PathParam).DecodeFromBytes
+//@   modifies a.*
+//@   loop 0 invariant len(data) >= 4*(int(a.Num) - int(__iter)) && __iter < a.Num
+//@   loop 0 invariant len(a.AS) == old(len(a.AS)) + int(__iter)
+//@   ensures err == nil ==> len(a.AS) == old(len(a.AS)) + int(a.Num) && 2 + 4*int(a.Num) <= len(data)
+//@   ensures err != nil ==> freshMsgErr(err)
+
+//@ func validateAsPathValueBytes
+//@   modifies nothing
+//@   loop 1 decreases len(d)
+//@   ensures result1 != nil ==> freshMsgErr(result1)
+
+//@ func (*PathAttributeAsPath).DecodeFromBytes
+//@   modifies p.*
+//@   loop 0 decreases len(value)
+//@   ensures err != nil ==> freshMsgErr(err)
+//@ func (*PathAttributeAs4Path).DecodeFromBytes
+//@   modifies p.*
+//@   loop 0 decreases len(value)
+//@   ensures err != nil ==> freshMsgErr(err)
